@@ -119,8 +119,47 @@ def detect(sid, tier, props):
     return 0
 
 
+def benign(src, sid, tier, props):
+    """A behaviour-preserving change: the suite must still pass and every listed check must stay silent (exit 0)."""
+    patch = os.path.join(src, "patch.diff")
+    mut = scratch(sid + "_ben", patch)
+    res = {}
+    try:
+        e = dict(os.environ, RUNBASE_TIMEOUT="600")
+        suite = subprocess.run([os.path.join(VERIF, "tools/runbase.sh"), mut], capture_output=True, text=True, env=e)
+        for p in props:
+            t0 = time.time()
+            e = dict(os.environ, AUDITOK_REPO=mut, VERIF_EVIDENCE_DIR=os.path.join(SCR, "evidence_" + sid))
+            try:
+                r = subprocess.run([os.path.join(VERIF, "check"), p, tier], capture_output=True, text=True, env=e, timeout=3600)
+                viol = [l for l in r.stdout.splitlines() if l.startswith("VIOLATION")]
+                what = [l for l in r.stdout.splitlines() if l.startswith("# ") or l.startswith("MACHINERY")][:3]
+                res[p] = {"rc": r.returncode, "violations": len(viol), "silent": r.returncode == 0 and not viol, "what": what,
+                          "divergence": [l for l in r.stdout.splitlines() if l.startswith("DIVERGENCE")][:1], "wall_s": round(time.time() - t0, 1)}
+            except subprocess.TimeoutExpired:
+                res[p] = {"rc": -9, "silent": False, "what": ["timeout"]}
+            print(sid, p, tier, "rc", res[p]["rc"], "silent" if res[p]["silent"] else "ALARM", res[p]["what"][:1], res[p].get("divergence"))
+    finally:
+        shutil.rmtree(mut, ignore_errors=True)
+        shutil.rmtree(os.path.join(SCR, "evidence_" + sid), ignore_errors=True)
+    dst = os.path.join(VERIF, "seeded", "benign", sid)
+    os.makedirs(dst, exist_ok=True)
+    for f in ("patch.diff", "notes.md"):
+        if os.path.exists(os.path.join(src, f)):
+            shutil.copy(os.path.join(src, f), os.path.join(dst, f))
+    with open(os.path.join(dst, "result.json"), "w") as f:
+        json.dump({"id": sid, "suite_passes": suite.returncode == 0, "suite": suite.stdout.strip()[-200:], "checks": res}, f, indent=1)
+    return 0 if all(v["silent"] for v in res.values()) and suite.returncode == 0 else 1
+
+
 if __name__ == "__main__":
     a = sys.argv[1:]
+    if a[0] == "benign":
+        tier = "quick"
+        rest = a[3:]
+        if rest and rest[0] in ("quick", "thorough"):
+            tier = rest.pop(0)
+        sys.exit(benign(a[1], a[2], tier, rest))
     if a[0] == "confirm":
         sys.exit(confirm(a[1], a[2], a[3]))
     if a[0] == "detect":
